@@ -23,11 +23,6 @@ Fixpoint ast_eqb (a b : ast) {struct a} : bool :=
   end.
 Fixpoint tokens_eqb (a b : list token) : bool :=
   match a, b with [], [] => true | x :: a', y :: b' => token_eqb x y && tokens_eqb a' b' | _, _ => false end.
-Definition perr_eqb (a b : perr) : bool :=
-  match a, b with
-  | PEof, PEof | PUnexpected, PUnexpected | PMaxDepth, PMaxDepth | PNumValues, PNumValues | PNumTypes, PNumTypes | PUnmodelled, PUnmodelled => true
-  | _, _ => false
-  end.
 (* the implementation's parser result: Some ast + number of tokens left, or an error kind *)
 Inductive presult := PRes (v : option ast) (nleft : nat) (e : option perr) | PPanic.
 Definition pres_agrees (m : pres ast) (r : presult) : bool :=
